@@ -76,18 +76,18 @@ ADDED = {
   "C02": " Two fixed histories of one configuration declared in another order at every step. Three fixed histories over families of 2-24 siblings growing and shrinking. Four fixed histories over look-alike sibling names (published hash collisions, case, normalisation, trimming).",
   "C03": " Appender names differ only in letter case; part concurrent (threads inside one appender at the same time). Filters may answer by what the record says; failing appenders fail with plain errors or I/O errors of eight kinds, bare or wrapped. An appender may be a foreign log::Log whose enabled() refuses everything while its log() records; the error handler may panic while reporting (every appender whose chain delivers has been served all the same). Part file-route: appenders and filters built from a configuration document with user-defined kinds; a filter kind with a memory declared identically on several appenders - each declaration is a filter of its own.",
   "C04": " Another appender may truncate the file meanwhile; the builder may be told the open mode twice. Parts giant (records of 1-3 MiB written in pieces) and thread-exit (appends from thread-local destructors, child process). Also: an append whose own encoder fails after k bytes (everything acknowledged before stays, both open modes); the file rotated away by somebody else before a new appender is built on the path. Part relative-path: an appender built on a relative path keeps writing to the file it opened when the process changes its working directory afterwards (nothing appears under the new one). Full device under a rolling appender whose every record fires the trigger. The harness encoder reaches the writer through write_all, write and write_vectored in turn (also C05-C08, C17).",
-  "C05": " Records may lack a trailing line break; in the background-rotation build a panic of the rotation thread is a violation. The appender may be built by the rolling_file deserializer (append left out when it is the default).",
+  "C05": " Records may lack a trailing line break; in the background-rotation build a panic of the rotation thread is a violation. The appender may be built by the rolling_file deserializer (append left out when it is the default). The pattern pool holds a pattern with blanks at both ends and two with long directory names outside ASCII (also through the rolling_file deserializer).",
   "C06": " Messages may start with char arguments. Limits no file can reach (2^63 .. u64::MAX) never roll. Records written through write_vectored and plain write loops count like any other.",
-  "C07": " Futile roll attempts (nothing / a directory at the rolled path) lose no archive. Patterns with '..' after a symbolic link or a two-component variable, relative patterns, a change of working directory between rolls. The rolled file may be a symbolic link (its target is a bystander, nothing may remain at the path); windows of 33-70 slots; bystanders whose names merely look like an index. A futile roll with nothing at the rolled path is asserted for compressing rollers too.",
+  "C07": " Futile roll attempts (nothing / a directory at the rolled path) lose no archive. Patterns with '..' after a symbolic link or a two-component variable, relative patterns, a change of working directory between rolls. The rolled file may be a symbolic link (its target is a bystander, nothing may remain at the path); windows of 33-70 slots; bystanders whose names merely look like an index. A futile roll with nothing at the rolled path is asserted for compressing rollers too. Files of another appender inside the slot directories of directory-component patterns are bystanders.",
   "C08": " The top slot's chunk is retained when the slot below is vacant. Further faults: a roller that archives the file and then reports a failure; an obstacle directory at the only archive name of a compressing pattern; the archive on a full device (name linked to /dev/full, compressing patterns, window of one) - the error arrives only in the encoder's final flush. Patterns with long directory names outside ASCII (2- and 3-byte characters).",
   "C09": " Long date formats (rendered dates of 100-400 bytes); the default date format under zones west of Greenwich with fractional offsets. Record texts of 4/8/16/64 KiB in one piece; module path and file as &'static str (backslashes, quotes, controls); short multi-byte literal messages. Part deep-nesting: 1-1500 plain and highlight groups nested around {m} (thread with a 1 GiB stack). Date formats may be the bare words utc and local.",
   "C10": " Maximum widths that do not fit 32 bits; literal messages with far more bytes than characters.",
   "C11": " Widths up to 262 144 are encoded; malformed MDC defaults among the breakers. Semantic errors inside groups (with and without a maximum width) must leave what precedes them in the group rendered. A panic raised and caught again inside the library counts as a panic (per-thread panic-hook counter); part broken-stderr: broken patterns constructed and encoded in a child whose stderr is a pipe nobody reads. Part nested-message: a message argument that encodes records of its own through pattern encoders on the same thread. Profile groups with two arguments among the breakers.",
   "C12": " Part nested: a message argument that encodes records of its own (three lines). MDC keys that differ only in letter case or by a compatibility look-alike are different keys; module path and file may arrive through module_path_static/file_static.",
   "C13": " Names of 8-72 characters with colon runs at every position. Fixed inputs over look-alike appender names and references (published hash collisions, case, trailing line terminators, invisible characters).",
-  "C14": " Refresh rates in minutes, milli-, micro-, nanoseconds and combined forms; look-alike units are malformed values. Mutation 'malformed text after the complete document'. Filter chains may hold a user-defined, order-sensitive filter kind registered through Deserializers::insert (lossy loading must keep the order of the surviving filters). Mutations 'key written twice' (document, root, logger sections) and 'a byte that is not UTF-8' (comment, pattern, name; a character cut off at the end).",
+  "C14": " Refresh rates in minutes, milli-, micro-, nanoseconds and combined forms; look-alike units are malformed values. Mutation 'malformed text after the complete document'. Filter chains may hold a user-defined, order-sensitive filter kind registered through Deserializers::insert (lossy loading must keep the order of the surviving filters). Mutations 'key written twice' (document, root, logger sections) and 'a byte that is not UTF-8' (comment, pattern, name; a character cut off at the end). Near-miss units (a plural too many, two units) among the degenerate values.",
   "C15": " A record logged by an appender of the incoming configuration while the reloader builds it is routed by a complete configuration. Reloader edits confined to the final line break of a document ending in a block scalar; a reload slower than the refresh rate. Real-time scenarios through init_file: refresh rate honoured after a change (2 s -> 100 ms -> 1 h), kept after a poll that found the file unparsable; a process whose stderr is a broken pipe. One save that removes the refresh rate and changes the routing is applied before polling stops; a file that starts with a byte-order mark and is merely touched is not applied again.",
-  "C16": " Part shared: one trigger consulted by 2-8 threads at the same driven instant fires exactly once per round.",
+  "C16": " Part shared: one trigger consulted by 2-8 threads at the same driven instant fires exactly once per round. In half of the sequences a second live trigger with a schedule of its own (1 year / 1 second) is consulted right before every arrival.",
   "C17": " The path may hold a reference to a variable set only after the appender was built. The log file may be moved away between start-up and the first record. The configured path may be a symbolic link to the pre-existing file.",
   "C18": " Part raw-writer (the public ConsoleWriter used directly, same style recurring); an encoder that gives up half-way right before the other stream's appender logs. Every cell carries a distractor environment (TERM=dumb/unset, FORCE_COLOR, COLORTERM, CI ...); a third of the cells build the appender through the console deserializer; part threads: 2-8 threads through one appender, colour on and off. Part device: the target redirected to a character device that is no terminal - a tty_only appender stays silent.",
   "C19": " Names with dots further in; variables with names no reference can have exist. References cut short by the next reference; rollers with a window of one. Bystander variables that are not valid Unicode sit in the environment; one roller rolls twice with every pool variable changed in between. References malformed by a non-ASCII symbol, dash or space (variables of those names exist). A stale file named like the unexpanded path sits next to the expanded location.",
